@@ -54,6 +54,7 @@ def check(rep, an, tier):
         CC.vertex_set(rep, res, entry)
         CC.corner_subset(rep, res, entry)
         CC.no_projected_decision(rep, res, entry)
+        CC.exact_triangulation(rep, res, entry)
         n = CC.membership_frames(rep, res, entry)
         if n == 0:
             rep.undecided("R-QTY", "membership operands share a frame", entry=entry, config=res.config, construct="in_hull(P_, B_)")
